@@ -6,9 +6,11 @@ import (
 	"encoding/hex"
 	"errors"
 	"fmt"
+	"io"
 	"reflect"
 	"strconv"
 	"strings"
+	"testing/iotest"
 	"time"
 
 	"github.com/inbucket/inbucket/v3/pkg/config"
@@ -37,6 +39,8 @@ func (o sop) String() string {
 		return fmt.Sprintf("add(%s,b%d)", storeBoxes[o.MB], o.Body)
 	case "scan":
 		return "retention-scan(keep newest)"
+	case "addfail":
+		return fmt.Sprintf("add-with-failing-source(%s)", storeBoxes[o.MB])
 	case "purge":
 		return fmt.Sprintf("purge(%s)", storeBoxes[o.MB])
 	case "reopen":
@@ -69,12 +73,13 @@ var storeBoxes = func() []string {
 
 // storeRun is one live store plus its model and the ids ever returned.
 type storeRun struct {
-	h       *sys.StoreH
-	mo      *model.Store
-	ids     map[string][]string // mailbox -> ids ever returned, in arrival order
-	clock   int64
-	evicted int // evictions the model performed so far (part of the dedup key: hidden-state proxy)
-	removed int
+	h             *sys.StoreH
+	mo            *model.Store
+	ids           map[string][]string // mailbox -> ids ever returned, in arrival order
+	clock         int64
+	beforeRestart map[string]bool // mailbox/id issued before the latest reopen
+	evicted       int             // evictions the model performed so far (part of the dedup key: hidden-state proxy)
+	removed       int
 }
 
 func newStoreRun(spec sys.StoreSpec) *storeRun {
@@ -129,6 +134,14 @@ func (r *storeRun) apply(o sop, check bool) (probs [][2]string, changed bool) {
 	switch o.Kind {
 	case "reopen":
 		r.h.Reopen()
+		if r.beforeRestart == nil {
+			r.beforeRestart = map[string]bool{}
+		}
+		for mbn, l := range r.ids {
+			for _, id := range l {
+				r.beforeRestart[mbn+"/"+id] = true
+			}
+		}
 		return nil, true
 	case "add":
 		r.clock++
@@ -143,14 +156,26 @@ func (r *storeRun) apply(o sop, check bool) (probs [][2]string, changed bool) {
 			bad("add|error", fmt.Sprintf("AddMessage(%q) failed: %v", mb, err))
 			return probs, false
 		}
+		issued := false
 		for _, old := range r.ids[mb] {
-			if old == id {
-				bad("add|id-reused", fmt.Sprintf("AddMessage(%q) returned id %q which was issued before in this mailbox", mb, id))
+			issued = issued || old == id
+		}
+		liveOld := r.mo.ByID(mb, id)
+		r.ids[mb] = append(r.ids[mb], id)
+		ev := r.mo.Add(&model.Msg{ID: id, Mailbox: mb, From: "from@x.test", To: []string{"to1@x.test", "to2@y.test"},
+			Subject: fmt.Sprintf("subj %d", r.clock), Body: body, Size: int64(len(body)), DateNS: date.UnixNano()})
+		r.evicted += len(ev)
+		for _, e := range ev {
+			if e == liveOld {
+				liveOld = nil // this delivery evicted it first
 			}
 		}
-		r.ids[mb] = append(r.ids[mb], id)
-		r.evicted += len(r.mo.Add(&model.Msg{ID: id, Mailbox: mb, From: "from@x.test", To: []string{"to1@x.test", "to2@y.test"},
-			Subject: fmt.Sprintf("subj %d", r.clock), Body: body, Size: int64(len(body)), DateNS: date.UnixNano()}))
+		// "never reused" is demanded within one run of the process and, across restarts, for
+		// every id that is still in use (the id counter restarts with the process)
+		if issued && (!r.beforeRestart[mb+"/"+id] || liveOld != nil) {
+			bad("add|id-reused", fmt.Sprintf("AddMessage(%q) returned id %q which was issued before in this mailbox", mb, id))
+		}
+		delete(r.beforeRestart, mb+"/"+id) // issued by this run of the process now
 		if check {
 			// the id just returned must be retrievable (unless the limits evicted it at once)
 			m, err := st.GetMessage(mb, id)
@@ -167,6 +192,32 @@ func (r *storeRun) apply(o sop, check bool) (probs [][2]string, changed bool) {
 			}
 		}
 		return probs, true
+	case "addfail":
+		// a delivery whose source fails half way (the environment's answer "error" to a read):
+		// AddMessage must report it, and the mailbox is either unchanged or - when it was full -
+		// has lost exactly what a successful delivery would have evicted.  Which of the two is
+		// read off the listing; everything else is then compared as usual (also after a reopen).
+		r.clock++
+		date := time.Unix(1700000000+3600*r.clock, 0)
+		d := sys.Delivery(mb, "from@x.test", []string{"to1@x.test"}, fmt.Sprintf("subj %d", r.clock), "", date)
+		d.Reader = io.MultiReader(strings.NewReader("Subject: f\r\n\r\nhalf of the bo"), iotest.ErrReader(errors.New("source failed")))
+		_, err := st.AddMessage(d)
+		if err == nil {
+			bad("addfail|success", fmt.Sprintf("AddMessage(%q) reported success although its source returned an error", mb))
+			return probs, false
+		}
+		l := r.mo.Boxes[mb]
+		if r.mo.Cap > 0 && len(l) >= r.mo.Cap {
+			ms, _ := st.GetMessages(mb)
+			if len(ms) == r.mo.Cap-1 {
+				for _, m := range append([]*model.Msg{}, l[:len(l)-(r.mo.Cap-1)]...) {
+					r.mo.Remove(mb, m)
+					r.evicted++
+				}
+				return probs, true
+			}
+		}
+		return probs, false
 	case "get":
 		id, mm, kind := r.resolve(mb, o.Ref)
 		m, err := st.GetMessage(mb, id)
